@@ -994,6 +994,34 @@ def wiring(ctx, mod):
                   'Covobs built with mismatching keys: %s' % unparse(c), mod.loc(c))
 
 
+def scalefactor_unconditional(ctx, mod, rule):
+    """the missing-replica scale factors of an input are computed for every input: a shortcut that skips them for inputs that "have all
+    names" compares counts of different things (names include covariance names) and drops the up-weighting"""
+    f = mod.func('derived_observable')
+    calls = [c for c in walk(f) if isinstance(c, ast.Call) and call_name(c) == '_compute_scalefactor_missing_rep']
+    key = 'obs.py:derived_observable#scalefactor-unconditional'
+    if not calls:
+        ctx.unrec(rule, key, 'no call of _compute_scalefactor_missing_rep', mod.loc(f))
+        return
+    bad = []
+    for c in calls:
+        g = [(unparse(t_), pol) for t_, pol in guards_of(mod, c, stop=f) if 'array_mode' not in unparse(t_) and 'isinstance' not in unparse(t_)]
+        st = c
+        while not isinstance(st, ast.stmt):
+            st = mod.parents[st]
+        # alternatives: another binding of the same target that is not this call
+        if isinstance(st, ast.Assign) and isinstance(st.targets[0], ast.Name):
+            alts = [s_ for s_ in statements(f) if isinstance(s_, ast.Assign) and isinstance(s_.targets[0], ast.Name) and s_.targets[0].id == st.targets[0].id and s_ is not st
+                    and not any(isinstance(y, ast.Call) and call_name(y) == '_compute_scalefactor_missing_rep' for y in walk(s_.value))]
+        else:
+            alts = []
+        if g or alts:
+            bad.append((c, g, [unparse(a_) for a_ in alts]))
+    ctx.check(rule, key, not bad, 'every input gets its missing-replica scale factors (%d call sites, none conditional)' % len(calls),
+              'the scale factors are computed only under %s (otherwise %s): inputs that lack whole replicas but carry covariance names are not up-weighted' % (bad[0][1], bad[0][2]) if bad else '',
+              mod.loc(bad[0][0]) if bad else None)
+
+
 # ------------------------------------------------------------------ run
 
 def run(ctx):
@@ -1038,6 +1066,8 @@ def run(ctx):
     ctx.guarded('C01-D6', 'obs.py:_compute_scalefactor_missing_rep', scalefactor, ctx, obs)
     from . import C04
     ctx.guarded('C01-D5', 'obs.py:_merge_idx', C04.merge_idx_rules, ctx, obs, 'C01-D5', (('_merge_idx', 'union'),))
+    ctx.guarded('C01-D5', 'obs.py:_check_lists_equal', C04.check_lists_equal_eval, ctx, obs, 'C01-D5')
+    ctx.guarded('C01-D5', 'obs.py:derived_observable#scalefactor-unconditional', scalefactor_unconditional, ctx, obs, 'C01-D5')
     ctx.guarded('C01-D7', 'obs.py:derived_observable@wiring', wiring, ctx, obs)
     from .. import unusedparams, leakedloop
     ctx.rule('C01-D9', 'every accepted option is read (no silently ignored parameter); no loop variable read after its loop')
